@@ -33,8 +33,9 @@ type scope struct {
 	instancesMu sync.RWMutex
 
 	// Track disposable scoped instances
-	disposables   []Disposable
-	disposablesMu sync.Mutex
+	disposables      []Disposable
+	disposablesTaken bool // set by Close once it owns the list
+	disposablesMu    sync.Mutex
 
 	// Child scopes for hierarchical cleanup
 	children   map[*scope]struct{}
@@ -297,6 +298,7 @@ func (s *scope) dispose() error {
 	s.disposablesMu.Lock()
 	disposables := s.disposables
 	s.disposables = nil
+	s.disposablesTaken = true
 	s.disposablesMu.Unlock()
 
 	for i := len(disposables) - 1; i >= 0; i-- {
@@ -360,6 +362,13 @@ func (s *scope) setInstance(descriptor *Descriptor, key instanceKey, instance an
 	case Transient:
 		if d, ok := instance.(Disposable); ok {
 			s.disposablesMu.Lock()
+			if s.disposablesTaken {
+				// The scope was closed while this instance was being built:
+				// nobody else will ever dispose it
+				s.disposablesMu.Unlock()
+				_ = d.Close()
+				return
+			}
 			s.disposables = append(s.disposables, d)
 			s.disposablesMu.Unlock()
 		}
